@@ -339,7 +339,10 @@ def gen_random(tier, seed):
 
 def gen_long(tier):
     """long worklists: the string conversion and the file must still carry every record"""
-    sizes = (999, 1000, 1001, 1500, 4097) if tier == "quick" else (255, 256, 257, 999, 1000, 1001, 1500, 2048, 4097, 10001, 65537)
+    # powers of two and their neighbours (block-wise / buffered writers), round decimal sizes
+    sizes = ((64, 127, 128, 256, 511, 512, 513, 999, 1000, 1001, 1024, 1500, 1536, 2048, 4096, 4097) if tier == "quick" else
+             (63, 64, 65, 127, 128, 129, 255, 256, 257, 511, 512, 513, 999, 1000, 1001, 1023, 1024, 1025, 1500, 1536, 2048, 4095, 4096, 4097,
+              8192, 10000, 10001, 16384, 32768, 65536, 65537))
     for i, n in enumerate(sizes):
         recs = [f"C;line {k} \xb5" if k % 97 == 0 else ("W1;" if k % 2 else "B;") for k in range(n)]
         dev = ["Base", "Evo", "Fluent"][i % 3]
@@ -353,7 +356,7 @@ def generate(tier, seed):
             yield name, case
 
 
-BOUNDS = {"long worklists": "record lists of 999..4097 (thorough 255..65537) records, saved explicitly and through a with block over a longer old file; str()/repr() compared record by record",
+BOUNDS = {"long worklists": "record lists of 64..4097 (thorough 63..65537) records incl. powers of two and their neighbours, saved explicitly and through a with block over a longer old file; str()/repr() compared record by record",
           "file names": "12 accepted + 16 refused names (case, dots, sub-directories named *.gwl, trailing characters) x str/Path x 3 record lists x {none, longer, shorter} pre-existing x {save, with, with+exception} x device (quick: one device per name)",
           "small-scope exhaustive": "all record lists of length 0..3 (thorough 0..4) over 4 records x 7 pre-existing variants x str/Path x 10 save histories",
           "random scripts": "seeded random (quick 5000, thorough 60000) scripts: <= 6 steps before, <= 3 with-blocks of <= 12 steps, <= 4 steps after, explicit saves with p=0.2 per step, all record types incl. transfer/distribute/evo commands, Latin-1 comments/labels"}
